@@ -209,9 +209,86 @@ def contract():
             ("warning_iff_truncated", "implies(not shorten, warned == (NRET() < sampcount))"),
         ],
     )
+    c.exit_lemmas = [
+        ("mul_monotone_1", "implies(sampsdone + 1 <= NRET(), (sampsdone + 1) * CW() <= NRET() * CW())"),
+        ("mul_monotone_2", "implies(NRET() + 1 <= sampsdone, (NRET() + 1) * CW() <= sampsdone * CW())"),
+    ]
     c.canaries = [("one_sample_more", "implies(not shorten, COUNT(result) == NRET() * chancount + 1)")]
     return c
 
 
 SETUPS = [("pcm16", setup(2, "pcm", None)), ("ulaw_expand", setup(1, "ulaw", None)), ("alaw_expand", setup(1, "alaw", None)),
           ("ulaw_raw", setup(1, "ulaw", 1)), ("pcm16_as_int32", setup(2, "pcm", 4))]
+
+
+def to_case(ob):
+    """solver model (channel count, sample count, bytes present) -> SPHERE files of the C12 stand-in, plus neighbours around
+    the 16 KiB read size"""
+    from pyvc.solve import model_int
+    c, sc, blen = (model_int(ob.model, k) for k in ("chancount", "sampcount", "blen"))
+    coding = "pcm10" if ("pcm16" in ob.id) else ("alaw" if "alaw" in ob.id else "ulaw")
+    w = 2 if coding.startswith("pcm") else 1
+    dtype = "uint8" if "ulaw_raw" in ob.id else ("int32" if "as_int32" in ob.id else None)
+    out = []
+
+    def add(c2, n2, cut):
+        if 1 <= c2 <= 64 and 1 <= n2 <= 40000 and 0 <= cut <= n2 * c2 * w:
+            for cod in ((coding, "pcm01") if w == 2 else (coding,)):
+                out.append({"kind": "plain", "c": c2, "n": n2, "coding": cod, "hdr": 1024, "seed": 0, "via": "bytes", "cut_bytes": cut, "dtype": dtype})
+
+    if c and sc and blen is not None and c <= 64 and sc <= 40000:
+        add(c, sc, max(0, sc * c * w - blen))
+    for c2 in (1, 2, 3, 5, 7, 8):
+        per = 16384 // (c2 * w)
+        for n2 in (1, 7, per - 1, per, per + 1, 2 * per + 1):
+            add(c2, n2, 0)
+            for cut in (1, c2 * w, c2 * w + 1, 3 * c2 * w):
+                add(c2, n2, cut)
+    return out
+
+
+# ------------------------------------------------------------------------------------------ G.711 tables
+
+def g711_ulaw(code):
+    """ITU-T G.711 mu-law expansion (16-bit): complement, sign / 3-bit exponent / 4-bit mantissa, bias 0x84"""
+    u = (~code) & 0xFF
+    sign, exp, man = u & 0x80, (u >> 4) & 7, u & 0x0F
+    t = ((man << 3) + 0x84) << exp
+    return (0x84 - t) if sign else (t - 0x84)
+
+
+def g711_alaw(code):
+    """ITU-T G.711 A-law expansion (16-bit): toggle even bits, sign / exponent / mantissa"""
+    a = code ^ 0x55
+    t = (a & 0x0F) << 4
+    seg = (a & 0x70) >> 4
+    if seg == 0:
+        t += 8
+    elif seg == 1:
+        t += 0x108
+    else:
+        t = (t + 0x108) << (seg - 1)
+    return t if (a & 0x80) else -t
+
+
+def unit_g711(prop="C12"):
+    def unit(tier, known):
+        from pyvc import extract
+        from pyvc.check import UnitResult
+        from pyvc.symex import Obligation
+        u = UnitResult("g711_tables")
+        consts = extract.module_constants("_sphere")
+        for name, fn in (("ULAW2PCM", g711_ulaw), ("ALAW2PCM", g711_alaw)):
+            tab = consts.get(name)
+            ok = isinstance(tab, list) and len(tab) == 256
+            bad = [c for c in range(256) if not ok or tab[c] != fn(c)][:3]
+            ob = Obligation(f"{prop}.{name}.equals_g711_for_all_256_codes", [], z3.BoolVal(not bad), "table", None)
+            ob.verdict, ob.backend, ob.seconds = ("proved" if not bad else "refuted"), "exhaustive evaluation of the literal table read from the source (256 codes)", 0.0
+            ob.model = {"first_wrong_codes": str(bad)} if bad else None
+            u.obligations.append(ob)
+        u.functions.append({"function": "_sphere:ULAW2PCM / ALAW2PCM (literal tables)", "line": 0, "sha256": ""})
+        u.to_case = lambda ob: [{"kind": "table"}]
+        u.replay_module = "rtc.c12"
+        return u
+    unit.__name__ = "g711_tables"
+    return unit
